@@ -2103,16 +2103,21 @@ class BackendMixin(PasswordHash):
         # pick first available backend
         if name == "any" or name == "default":
             default_error = None
-            for name in cls.backends:
-                try:
-                    return cls.set_backend(name, dryrun=dryrun)
-                except exc.MissingBackendError:  # noqa: PERF203
-                    continue
-                except exc.PasslibSecurityError as err:
-                    # backend is available, but refuses to load due to security issue.
-                    if default_error is None:
-                        default_error = err
-                    continue
+            with _backend_lock:
+                if name == "any" and cls.__backend:
+                    # another thread loaded a backend (possibly an explicit choice)
+                    # since the check above -- don't load the default one over it.
+                    return cls.__backend
+                for name in cls.backends:
+                    try:
+                        return cls.set_backend(name, dryrun=dryrun)
+                    except exc.MissingBackendError:  # noqa: PERF203
+                        continue
+                    except exc.PasslibSecurityError as err:
+                        # backend is available, but refuses to load due to security issue.
+                        if default_error is None:
+                            default_error = err
+                        continue
             if default_error is None:
                 msg = f"{cls.name}: no backends available"
                 if cls._no_backend_suggestion:
